@@ -132,7 +132,7 @@ type c16Op struct {
 // c16Plan produces the operation list of history hi: scenario templates (so that every quick run contains the sequences
 // the property names: rotation keeping / dropping old keys around resumptions, evictions from a small client cache, policy
 // changes between connections) with seeded filling, and free random walks.
-func c16Plan(r *mon.RNG, hi, nServers int) []c16Op {
+func c16Plan(r *mon.RNG, hi, nServers int, untrustedClient bool) []c16Op {
 	x := r.Intn(nServers)
 	y := (x + 1) % nServers
 	z := (x + 2) % nServers
@@ -151,7 +151,13 @@ func c16Plan(r *mon.RNG, hi, nServers int) []c16Op {
 			return []c16Op{con(y), con(x), {"rotate-replace-all", x, 0}, con(y), con(x), con(y)}
 		}
 	case 4: // client-certificate policy changes between connections
-		return []c16Op{con(x), {"server-auth", x, r.Intn(4)}, con(x), {"server-auth", x, r.Intn(4)}, con(x)}
+		if untrustedClient {
+			// a client whose certificate the server does not trust: welcome under the policies that do not verify, then
+			// the policy is tightened — neither a resumption nor a full handshake may succeed from then on
+			lax := 1 + r.Intn(2) // request | require-any
+			return []c16Op{{"server-auth", x, lax}, con(x), con(x), {"server-auth", x, 3}, con(x), {"server-auth", x, 4}, con(x), {"server-auth", x, lax}, con(x)}
+		}
+		return []c16Op{con(x), {"server-auth", x, r.Intn(5)}, con(x), {"server-auth", x, r.Intn(5)}, con(x)}
 	}
 	var ops []c16Op
 	n := 0
@@ -169,7 +175,7 @@ func c16Plan(r *mon.RNG, hi, nServers int) []c16Op {
 		case k == 2:
 			ops = append(ops, c16Op{"server-suites-narrowed", s, 0})
 		case k == 3:
-			ops = append(ops, c16Op{"server-auth", s, r.Intn(4)})
+			ops = append(ops, c16Op{"server-auth", s, r.Intn(5)})
 		case k == 4:
 			ops = append(ops, c16Op{"server-tickets-toggle", s, 0})
 		case k == 5:
@@ -184,11 +190,11 @@ func c16Plan(r *mon.RNG, hi, nServers int) []c16Op {
 func runC16History(c *Ctx, hi int) {
 	rep := c.Rep
 	r := c.Rng(fmt.Sprintf("hist%d", hi))
-	pki, err := newTLSPKI(r, false)
+	gm := hi%3 != 2
+	pki, err := newTLSPKI(r, gm) // GMSSL histories also need a second, untrusted PKI (same root name, other keys)
 	if err != nil {
 		return
 	}
-	gm := hi%3 != 2
 	klog := &keyLog{}
 	stdPool := gx509.NewCertPool()
 	nServers := 1 + r.Intn(3)
@@ -216,12 +222,20 @@ func runC16History(c *Ctx, hi int) {
 			}
 		}
 	}
-	auths := []gmtls.ClientAuthType{gmtls.NoClientCert, gmtls.RequestClientCert, gmtls.RequireAnyClientCert, gmtls.RequireAndVerifyClientCert}
+	auths := []gmtls.ClientAuthType{gmtls.NoClientCert, gmtls.RequestClientCert, gmtls.RequireAnyClientCert, gmtls.RequireAndVerifyClientCert, gmtls.VerifyClientCertIfGiven}
+	needsCert := func(a gmtls.ClientAuthType) bool { return a == gmtls.RequireAnyClientCert || a == gmtls.RequireAndVerifyClientCert }
+	verifiesCert := func(a gmtls.ClientAuthType) bool { return a == gmtls.VerifyClientCertIfGiven || a == gmtls.RequireAndVerifyClientCert }
 	withClientCert := r.Intn(2) == 0
+	// in some GMSSL histories the client's certificate is not one the server trusts (issued by a CA of the same name with
+	// another key): fine under the policies that do not verify, fatal under those that do — on a resumed session too
+	untrustedClient := withClientCert && gm && pki.other != nil && r.Intn(3) == 0
+	if hi%8 == 4 && gm && pki.other != nil && (hi/8)%2 == 0 {
+		withClientCert, untrustedClient = true, true // the policy-tightening scenario of c16Plan
+	}
 	for _, sv := range servers {
 		if r.Intn(2) == 0 {
-			sv.auth = auths[r.Intn(4)]
-			if !withClientCert && sv.auth >= gmtls.RequireAnyClientCert {
+			sv.auth = auths[r.Intn(5)]
+			if !withClientCert && needsCert(sv.auth) {
 				sv.auth = gmtls.RequestClientCert
 			}
 			sv.cfg.ClientAuth = sv.auth
@@ -233,7 +247,8 @@ func runC16History(c *Ctx, hi int) {
 	tickets := map[string]*c16Ticket{}
 	var ops []string
 	nConn := 0
-	for _, op := range c16Plan(r, hi, nServers) {
+	certlessSessions := 0 // completed connections in which the server saw no client certificate
+	for _, op := range c16Plan(r, hi, nServers, untrustedClient) {
 		si := op.srv
 		s := servers[si]
 		newKey := func() (k [32]byte) { r.Fill(k[:]); return }
@@ -269,7 +284,7 @@ func runC16History(c *Ctx, hi int) {
 			ops = append(ops, "server-suites-narrowed("+s.name+")")
 			continue
 		case "server-auth":
-			s.auth = auths[op.arg%4]
+			s.auth = auths[op.arg%5]
 			reconf(func(nc *gmtls.Config) { nc.ClientAuth = s.auth })
 			ops = append(ops, fmt.Sprintf("server-auth=%s(%s)", authName(s.auth), s.name))
 			continue
@@ -296,12 +311,15 @@ func runC16History(c *Ctx, hi int) {
 		}
 		if withClientCert {
 			ccfg.Certificates = []gmtls.Certificate{pki.cliSig, pki.cliEnc}
+			if untrustedClient {
+				ccfg.Certificates = []gmtls.Certificate{pki.other.cliSig, pki.other.cliEnc}
+			}
 			if !gm {
 				ccfg.Certificates = []gmtls.Certificate{pki.rsaCert}
 			}
 		}
 		out := handshakePair(ccfg, s.cfg, nil)
-		w := map[string]interface{}{"history": append([]string{}, ops...), "mode": map[bool]string{true: "GMSSL", false: "TLS"}[gm], "cache_capacity": capacity, "servers": nServers, "shared_ticket_keys": farm, "client_certificate": withClientCert, "client_error": errStr(out.cli.err), "server_error": errStr(out.srv.err), "cache_log": append([]string{}, cache.log...)}
+		w := map[string]interface{}{"history": append([]string{}, ops...), "mode": map[bool]string{true: "GMSSL", false: "TLS"}[gm], "cache_capacity": capacity, "servers": nServers, "shared_ticket_keys": farm, "client_certificate": withClientCert, "client_certificate_untrusted": untrustedClient, "client_error": errStr(out.cli.err), "server_error": errStr(out.srv.err), "cache_log": append([]string{}, cache.log...)}
 		for side, e := range map[string]*endResult{"client": &out.cli, "server": &out.srv} {
 			if e.panicked != nil {
 				rep.Violation("C16/Handshake/panic/"+side+"/"+e.panicked.Func, e.panicked.Value, w)
@@ -316,7 +334,17 @@ func runC16History(c *Ctx, hi int) {
 				}
 			}
 		}
-		certOK := !(s.auth >= gmtls.RequireAnyClientCert && !withClientCert)
+		certOK := !(needsCert(s.auth) && !withClientCert) && !(verifiesCert(s.auth) && untrustedClient)
+		if certOK == false && common && untrustedClient && s.auth == gmtls.VerifyClientCertIfGiven && certlessSessions > 0 {
+			// the client may hold a session in which no certificate was presented: resuming it presents none, which this
+			// policy allows; a full handshake presents the untrusted one and must fail. Either is correct: not judged.
+			rep.EvalTrivial("history/untrusted-client-under-verify-if-given-with-a-certless-session-around(not judged)")
+			if out.cli.completed && out.srv.completed {
+				out.cli.conn.Close()
+				out.srv.conn.Close()
+			}
+			continue
+		}
 		if !common || !certOK {
 			if out.cli.completed && out.srv.completed {
 				rep.Violation("C16/Handshake/completes-without-common-suite-or-required-certificate", "", w)
@@ -329,6 +357,9 @@ func runC16History(c *Ctx, hi int) {
 			break
 		}
 		cst, sst := out.cli.state, out.srv.state
+		if len(sst.PeerCertificates) == 0 {
+			certlessSessions++
+		}
 		// peer identity: resumed or not, the certificate the client reports must be the one of the server it asked for
 		// (a session is cached under the name it was verified for, whatever the cache has evicted in between)
 		if len(cst.PeerCertificates) == 0 || !bytes.Equal(cst.PeerCertificates[0].Raw, s.leafRaw) {
@@ -367,7 +398,7 @@ func runC16History(c *Ctx, hi int) {
 				expect = "must-not"
 			case tk.hadCerts && s.auth == gmtls.NoClientCert:
 				expect = "must-not"
-			case !tk.hadCerts && s.auth >= gmtls.RequireAnyClientCert:
+			case !tk.hadCerts && needsCert(s.auth):
 				expect = "must-not"
 			case containsSuite(s.suites, tk.suite) && tk.server == si && tk.gen == s.gen:
 				expect = "must"
